@@ -291,7 +291,10 @@ def rule_gating(ctx: Ctx, rid: str = "C08.GATING") -> int:
                 elif a == "right_disp_map":
                     n += 1
                     v = st.value
-                    okv = (isinstance(v, ast.Constant) and v.value is None) or (
+                    # None only where the machine is (re)initialised: a reset between the check phase and the run
+                    # (run_prepare, a run callback) discards what validation_check_conf derived for a validation step
+                    # named with a suffix ("validation.xxx"), for which run_prepare's own lookup does not fire
+                    okv = (isinstance(v, ast.Constant) and v.value is None and name in ("__init__", "check_conf")) or (
                         isinstance(v, ast.Subscript)
                         and isinstance(v.slice, ast.Constant)
                         and v.slice.value == "validation_method"
@@ -302,7 +305,7 @@ def rule_gating(ctx: Ctx, rid: str = "C08.GATING") -> int:
                         st,
                         f"{name}: {src(st)[:120]}",
                         okv,
-                        detail="right_disp_map must come from a validation step's 'validation_method' (or be None)",
+                        detail="right_disp_map must come from a validation step's 'validation_method' (None only in __init__ / at the start of check_conf): any other store overrides the check phase's decision, so a checked pipeline no longer runs as written",
                     )
     # run_prepare re-creates both disparity datasets empty
     rp = tree.func(SM, f"{MACHINE}.run_prepare")
